@@ -3,6 +3,8 @@ package drivers
 import (
 	"fmt"
 	"math/rand"
+	"os"
+	"path/filepath"
 
 	"github.com/scottyw/tetromino/gameboy/controller"
 	"github.com/scottyw/tetromino/gameboy/memory"
@@ -207,7 +209,10 @@ var intAlpha = [][]int{
 }
 
 func intGen(c *Ctx) {
-	rig := newIntRig()
+	var rig *intRig
+	if c.Fam != "rom" {
+		rig = newIntRig()
+	}
 	w := trace.NewWriter(c.Out, "int", 60000)
 	thorough := c.Thorough()
 	n := 0
@@ -377,7 +382,137 @@ func intGen(c *Ctx) {
 			}
 		}
 	}
+	if c.Want("rom") {
+		// windows of the repository's own test ROMs (the executions of the existing ROM tests, with the whole specification as the oracle)
+		rng := c.Rand(407)
+		base := filepath.Join(repoDir(), "gameboy", "testdata")
+		roms := []string{"blargg/cpu_instrs/individual/02-interrupts.gb", "blargg/halt_bug.gb", "blargg/instr_timing/instr_timing.gb",
+			"blargg/cpu_instrs/individual/01-special.gb", "blargg/cpu_instrs/individual/03-op sp,hl.gb", "blargg/cpu_instrs/individual/07-jr,jp,call,ret,rst.gb",
+			"blargg/cpu_instrs/individual/08-misc instrs.gb", "blargg/cpu_instrs/individual/11-op a,(hl).gb", "blargg/mem_timing/individual/01-read_timing.gb",
+			"blargg/mem_timing/individual/02-write_timing.gb", "blargg/mem_timing/individual/03-modify_timing.gb", "blargg/cpu_instrs/individual/04-op r,imm.gb",
+			"blargg/cpu_instrs/individual/05-op rp.gb", "blargg/cpu_instrs/individual/06-ld r,r.gb", "blargg/cpu_instrs/individual/09-op r,r.gb", "blargg/cpu_instrs/individual/10-bit ops.gb",
+			"mts-20221022-1430-8d742b9/acceptance/ei_sequence.gb", "mts-20221022-1430-8d742b9/acceptance/ei_timing.gb", "mts-20221022-1430-8d742b9/acceptance/rapid_di_ei.gb",
+			"mts-20221022-1430-8d742b9/acceptance/halt_ime0_ei.gb", "mts-20221022-1430-8d742b9/acceptance/halt_ime1_timing.gb", "mts-20221022-1430-8d742b9/acceptance/intr_timing.gb",
+			"mts-20221022-1430-8d742b9/acceptance/reti_intr_timing.gb", "mts-20221022-1430-8d742b9/acceptance/if_ie_registers.gb", "mts-20221022-1430-8d742b9/acceptance/di_timing-GS.gb",
+			"mts-20221022-1430-8d742b9/acceptance/halt_ime0_nointr_timing.gb", "mts-20221022-1430-8d742b9/acceptance/timer/tima_reload.gb"}
+		nroms, windows, units := 6, 2, 1500
+		if thorough {
+			nroms, windows, units = len(roms), 6, 4000
+		}
+		k := 0
+		for i := 0; i < nroms; i++ {
+			rom := filepath.Join(base, roms[(i*5+int(c.Seed))%len(roms)])
+			if thorough {
+				rom = filepath.Join(base, roms[i])
+			}
+			if _, err := os.Stat(rom); err != nil {
+				continue
+			}
+			for wdw := 0; wdw < windows; wdw++ {
+				skip := rng.Intn(400000)
+				if wdw == 0 {
+					skip = rng.Intn(2000)
+				}
+				w.Put(romTrace(fmt.Sprintf("int-rom-%d", k), rom, skip, units))
+				k++
+			}
+		}
+	}
 	w.Close()
+}
+
+// romTrace runs a ROM on the full machine (hardware ticking, requests raised by the PPU and the timer) and records
+// windows of consecutive units: what was raised is what appeared in IF during the hardware part of each cycle.
+func romTrace(id, rom string, skip, units int) *trace.Scenario {
+	img, err := os.ReadFile(rom)
+	sc := &trace.Scenario{ID: id}
+	if err != nil {
+		sc.Reset = []any{0, 0, 0, rom, skip, units}
+		sc.Ev = [][]any{{"panic", err.Error()}}
+		return sc
+	}
+	m := machine.New(img, machine.Options{})
+	var bus [][]int
+	cyc := 0
+	on := false
+	memory.VerifBusObserver = func(mm *memory.Mapper, write bool, addr uint16, value uint8) {
+		if !on || mm != m.M {
+			return
+		}
+		if write {
+			bus = append(bus, []int{cyc, 1, int(addr), int(value)})
+		} else {
+			bus = append(bus, []int{cyc, 0, int(addr), int(mm.VerifPeek(addr))})
+		}
+	}
+	defer func() { memory.VerifBusObserver = nil }()
+	perr := machine.Try(func() {
+		// skip ahead to an instruction boundary after `skip` machine cycles
+		for i := 0; i < skip || !m.CPU.VerifAtBoundary(); i++ {
+			m.Cycle()
+		}
+		st := m.CPU.VerifGet()
+		sc.Reset = []any{trace.B2I(m.I.Enabled()), int(m.I.ReadIE()), int(m.I.ReadIF() & 0x1f), rom, skip, units, trace.B2I(st.Halted), trace.B2I(st.Haltbug)}
+		for u := 0; u < units; u++ {
+			pre := regsOf(m.CPU.VerifGet())
+			pc := pre[9]
+			ob := []int{int(m.M.VerifPeek(uint16(pc))), int(m.M.VerifPeek(uint16(pc + 1))), int(m.M.VerifPeek(uint16(pc + 2)))}
+			bus = nil
+			raises := [][]int{}
+			n := 0
+			for {
+				cyc = n + 1
+				on = true
+				m.CPU.ExecuteMachineCycle()
+				on = false
+				mid := int(m.I.ReadIF() & 0x1f)
+				m.Hardware()
+				n++
+				after := int(m.I.ReadIF() & 0x1f)
+				boundary := m.CPU.VerifAtBoundary()
+				for b := 0; b < 5; b++ {
+					if after>>uint(b)&1 == 1 && mid>>uint(b)&1 == 0 {
+						// raised by the hardware at the end of this cycle: visible to the CPU from the next cycle on
+						raises = append(raises, []int{n, b})
+					}
+				}
+				if boundary || n >= 12 {
+					break
+				}
+			}
+			b := bus
+			if b == nil {
+				b = [][]int{}
+			}
+			post := regsOf(m.CPU.VerifGet())
+			judged := 1
+			if !okStateROM(pre, ob) {
+				judged = 0
+			}
+			sc.Ev = append(sc.Ev, []any{pre, ob, b, post, n, int(m.I.ReadIE()), int(m.I.ReadIF() & 0x1f), raises, []int{}, judged})
+		}
+	})
+	if perr != "" {
+		if sc.Reset == nil {
+			sc.Reset = []any{0, 0, 0, rom, skip, units, 0, 0}
+		}
+		sc.Ev = append(sc.Ev, []any{"panic", perr})
+	}
+	return sc
+}
+
+// okStateROM: the instruction's candidate data addresses must not overlap its own bytes (wherever the code lives)
+func okStateROM(pre []int, ob []int) bool {
+	pc := pre[9]
+	for _, a := range candidates(pre, ob) {
+		if a >= pc-1 && a <= pc+3 {
+			return false
+		}
+		if a >= 0xe000 && a < 0xfe00 && a-0x2000 >= pc-1 && a-0x2000 <= pc+3 {
+			return false
+		}
+	}
+	return !undefinedOps[ob[0]] && ob[0] != 0x10
 }
 
 func intRerun(c *Ctx) {
@@ -388,6 +523,12 @@ func intRerun(c *Ctx) {
 	rig := newIntRig()
 	w := trace.NewWriter(c.Out, "int-rerun", 1<<30)
 	for _, s := range scs {
+		if rr, ok := s.Reset.([]any); ok && len(rr) >= 6 {
+			if rom, isStr := rr[3].(string); isStr {
+				w.Put(romTrace(s.ID, rom, trace.Int(rr[4]), trace.Int(rr[5])))
+				continue
+			}
+		}
 		// the script is recovered from the recorded scenario: first unit's registers, the bytes seen at each PC,
 		// the reset record and the raise offsets converted back to global cycles
 		r := trace.Ints(s.Reset)
